@@ -11,6 +11,7 @@ package main
 
 import (
 	"fmt"
+	"reflect"
 	"sort"
 	"strconv"
 	"strings"
@@ -608,6 +609,56 @@ func srcIterate(mk func() object.Map) (keys string, count string) {
 	return
 }
 
+// srcUse: keys(), for-iteration and the map as function argument in ONE evaluation of one replayed map; the three
+// separate evaluations are only used to tell which of them failed when the combined one does.
+func srcUse(mk func() object.Map) (keys, count, arg string) {
+	pre := mk()
+	injMap = func() object.Object { return pre }
+	state.Out = &strings.Builder{}
+	r, pan := evalSrc("argn=func(p){len(p)};argi=func(p){p};m=um();n=0;for kv=m{n=n+1};" +
+		"[[keys(m),n,[argn(m),argn(m),argi(m),argi(m)==m,argn(argi(m))]]][0]")
+	if pan == "" && r != nil && r.Type() == object.ARRAY && len(object.Elements(r)) == 3 {
+		el := object.Elements(r)
+		return Canon(el[0]), Canon(el[1]), Canon(el[2])
+	}
+	keys, count = srcIterate(mk)
+	return keys, count, srcAsArgument(mk)
+}
+
+// srcAsArgument: the map handed to grol functions as an argument (a small map argument is part of the function-cache
+// key: it is hashed and compared as a whole Go value): a cacheable function called twice on it, the identity function,
+// a function looking an entry up. Returns the canonical [len, len, the map back, equality with itself through idf].
+func srcAsArgument(mk func() object.Map) string {
+	pre := mk()
+	injMap = func() object.Object { return pre }
+	state.Out = &strings.Builder{}
+	r, pan := evalSrc("argn=func(p){len(p)};argi=func(p){p};m=um();[[argn(m),argn(m),argi(m),argi(m)==m,argn(argi(m))]][0]")
+	if pan != "" {
+		return "P:" + pan
+	}
+	return Canon(r)
+}
+
+// staleSlots: for a SmallMap, the array slots at and beyond len must be empty whatever the history (they are not
+// visible to any map operation, but the value is compared and hashed whole when it is a cache key). Read by reflection.
+func staleSlots(m object.Object) string {
+	sm, ok := m.(object.SmallMap)
+	if !ok {
+		return ""
+	}
+	v := reflect.ValueOf(sm)
+	kv, ln := v.FieldByName("smallKV"), v.FieldByName("len")
+	if !kv.IsValid() || !ln.IsValid() {
+		return ""
+	}
+	for i := int(ln.Int()); i < kv.Len(); i++ {
+		if !kv.Index(i).IsZero() {
+			return fmt.Sprintf("slot %d of a SmallMap of %d pairs is not empty", i, ln.Int())
+		}
+	}
+	return ""
+}
+
 // ---------------------------------------------------------------- checks on one (state, op)
 type explorer struct {
 	c        *Ctx
@@ -685,6 +736,9 @@ func (e *explorer) check(n0 int, path []op, o op, caseStr func() string) (object
 			c.Fail("not-equal-to-same-content-other-history:"+opName(o), caseStr(), stateStr(am)+" vs "+stateStr(rev))
 		}
 	}
+	if st := staleSlots(after); st != "" {
+		c.Fail("small-map-stale-slot:"+opName(o), caseStr(), o.tok+" from "+baseStr+": "+st)
+	}
 	// the left operand / receiver of a non-mutating operation is unchanged
 	if o.kind != 'S' && o.kind != 'D' {
 		if s := stateStr(base); s != baseStr {
@@ -711,14 +765,16 @@ func (e *explorer) check(n0 int, path []op, o op, caseStr func() string) (object
 		}
 		if o.kind == 'S' || o.kind == 'D' || o.kind == 'A' || o.kind == 'P' || o.kind == 'R' || o.kind == 'X' || o.kind == 'T' {
 			mkAfter := func() object.Map { m, _ := applyAPI(replay(n0, path), o); return m }
-			ks, cnt := srcIterate(mkAfter)
+			ks, cnt, arg := srcUse(mkAfter)
 			var want []string
 			for _, k := range ref2.ks {
 				want = append(want, Canon(k))
 			}
 			if w := "A[" + strings.Join(want, ",") + "]"; ks != w {
 				sig := "keys-mismatch:" + opName(o)
-				if strings.HasPrefix(ks, "ERR") {
+				if ks == "P" {
+					sig = "keys-panic:" + opName(o)
+				} else if strings.HasPrefix(ks, "ERR") {
 					sig = "keys-not-supported:" + opName(o)
 				}
 				c.Fail(sig, caseStr(), "keys(m)="+ks+" reference "+w)
@@ -726,7 +782,14 @@ func (e *explorer) check(n0 int, path []op, o op, caseStr func() string) (object
 			if w := fmt.Sprintf("I%d", len(ref2.ks)); cnt != w {
 				c.Fail("iteration-count-mismatch:"+opName(o), caseStr(), "for kv=m visited "+cnt+" pairs, reference "+w)
 			}
-			c.Evals += 2
+			if w := fmt.Sprintf("A[I%d,I%d,%s,B1,I%d]", len(ref2.ks), len(ref2.ks), ref2.canon(), len(ref2.ks)); arg != w {
+				sig := "map-as-function-argument-differs:" + opName(o)
+				if strings.HasPrefix(arg, "P:") {
+					sig = "map-as-function-argument-panic:" + opName(o)
+				}
+				c.Fail(sig, caseStr(), "argn(m),argn(m),argi(m),argi(m)==m,argn(argi(m)) give "+arg+", reference "+w)
+			}
+			c.Evals += 3
 		}
 	}
 	return after, obs
@@ -1558,7 +1621,7 @@ func (e *explorer) bindingHistories() {
 			{}, {S("a"), I(1)}, {Fl(float64(key(n)) + 0.5), I(1)},
 		}
 	}
-	sizes := []int{4, 5, 6, 7}
+	sizes := []int{4, 5, 7}
 	if c.Thorough() {
 		sizes = []int{2, 3, 4, 5, 6, 7, 8, 9, 12}
 	}
@@ -1649,6 +1712,85 @@ func (e *explorer) bindingHistories() {
 			sizes = append(sizes, strings.Count(r[len(r)-1][len(ops)-1], ":"))
 		}
 		e.bindings(ops)
+	}
+}
+
+// ---------------------------------------------------------------- maps as arguments after pairs were cut off
+// Small and large maps in which one value is not a plain hashable Go value (a 9 element array, a 5 pair map, an
+// array holding one, a function); every operation that can cut that pair off (every range, rest, del of each key,
+// overwriting it) and then the map used as an ARGUMENT of grol functions (keys, a cacheable function called twice,
+// the identity) - result, no panic, equal to the reference map built directly; and no stale slot in the Go value.
+func (e *explorer) arguments() {
+	c := e.c
+	I := func(n int) object.Object { return object.Integer{Value: int64(n)} }
+	heavy := musts("A[I1,I2,I3,I4,I5,I6,I7,I8,I9]", "M{I1:I1,I2:I2,I3:I3,I4:I4,I5:I5}", "A[A[I1,I2,I3,I4,I5,I6,I7,I8,I9]]")
+	sizes := []int{2, 3, 4, 5, 6}
+	for _, n := range sizes {
+		for _, pos := range []int{0, n / 2, n - 1} {
+			for _, h := range heavy {
+				var items []object.Object
+				for i := 0; i < n; i++ {
+					var v object.Object = I(i)
+					if i == pos {
+						v = h
+					}
+					items = append(items, I(10*(i+1)), v)
+				}
+				t := opT(items)
+				var ops []op
+				for lo := 0; lo <= n; lo++ {
+					for hi := lo; hi <= n; hi++ {
+						ops = append(ops, opX(lo, hi))
+					}
+				}
+				ops = append(ops, op0('R'), opS(I(10*(pos+1)), I(7)), opS(I(5), h), opM('A', 0, "M{}"), opM('A', 0, "M{I5:"+Canon(h)+"}"))
+				for i := 0; i < n; i++ {
+					ops = append(ops, opK('D', I(10*(i+1))))
+				}
+				e.keys = []object.Object{I(10), I(10 * (pos + 1)), I(10 * n)}
+				var toks, obss []string
+				for _, o := range ops {
+					o := o
+					_, ob := e.check(0, []op{t}, o, func() string { return "MAP 0 " + t.tok + " " + o.tok })
+					toks = append(toks, o.tok)
+					obss = append(obss, ob)
+					// two steps: cut, then cut again / delete (stale pairs surviving a second operation)
+					if o.kind == 'X' && o.hi-o.lo >= 1 {
+						o2 := opX(0, o.hi-o.lo-1)
+						_, ob2 := e.check(0, []op{t, o}, o2, func() string { return "MAP 0 " + t.tok + ";" + o.tok + " " + o2.tok })
+						c.Case("MAP 0 "+t.tok+";"+o.tok+" "+o2.tok, ob2)
+					}
+				}
+				c.Case("MAP 0 "+t.tok+" "+strings.Join(toks, " "), strings.Join(obss, " "))
+				c.Count("arguments:heavy-value")
+			}
+		}
+		// function values (no canonical form to rebuild them from): whole programs
+		var parts []string
+		for i := 0; i < n; i++ {
+			parts = append(parts, fmt.Sprintf("%d:%d", 10*(i+1), i))
+		}
+		for _, fv := range []string{"func(){1}", "[func(){1}]", "[1,2,3,4,5,6,7,8,[9]]"} {
+			lit := "{" + strings.Join(parts, ",") + fmt.Sprintf(",%d:%s}", 10*(n+1), fv)
+			code := "cnt=func(p){len(p)};idf=func(p){p};o=" + lit + fmt.Sprintf(";a=o[0:%d];b=o;del(b[%d]);[[cnt(a),cnt(a),keys(a),idf(a)==a,cnt(b),cnt(b),keys(b)==keys(a),a==b]][0]", n, 10*(n+1))
+			st := eval.NewState()
+			st.Out = &strings.Builder{}
+			old := state
+			state = st
+			r, pan := evalSrc(code)
+			state = old
+			c.Eval()
+			var ks []string
+			for i := 0; i < n; i++ {
+				ks = append(ks, fmt.Sprintf("I%d", 10*(i+1)))
+			}
+			want := fmt.Sprintf("A[I%d,I%d,A[%s],B1,I%d,I%d,B1,B1]", n, n, strings.Join(ks, ","), n, n)
+			if pan != "" {
+				c.Fail("map-as-function-argument-panic:program", "PROG "+code, pan)
+			} else if got := Canon(r); got != want {
+				c.Fail("map-as-function-argument-differs:program", "PROG "+code, "got "+got+" expected "+want)
+			}
+		}
 	}
 }
 
@@ -1993,6 +2135,8 @@ func runC11(c *Ctx) {
 	e.literals()
 	// several bindings alive at once: views, grown copies, two merges from one operand, everything re-read
 	e.bindingHistories()
+	// maps used as arguments of grol functions after pairs with unhashable values were cut off
+	e.arguments()
 	// whole programs read once at the end: in-place writes, values taken from inside functions
 	e.programs()
 	// index assignment replacing a value by an == but different one
@@ -2025,7 +2169,7 @@ func runC11(c *Ctx) {
 		"F7ff8000000000001", "F7ff0000000000000", "Ffff0000000000000", "I9007199254740993", "F4340000000000000", "I9007199254740992",
 		"I-1", "S-", "S61", "S6162", "S62", "B0", "B1", "N", "A[]", "A[I1]", "A[F3ff0000000000000]", "A[I1,I2]", "A[A[I1]]", "M{}", "M{I1:I1}",
 		"I-9223372036854775808", "I9223372036854775807", "F43e0000000000000")
-	rvals := musts("I7", "S78", "N", "A[I1]", "F7ff8000000000001", "M{I1:I2}")
+	rvals := musts("I7", "S78", "N", "A[I1]", "F7ff8000000000001", "M{I1:I2}", "A[I1,I2,I3,I4,I5,I6,I7,I8,I9]")
 	seqs, length := 60, 60
 	if c.Thorough() {
 		seqs, length = 3000, 120
